@@ -127,7 +127,8 @@ pub struct EvRec { pub round: usize, pub t_ms: u64, pub ev: Ev, /// index of the
     pub gen: usize }
 
 #[derive(Clone, Debug)]
-pub struct Dgram { /// round in which the datagram was sent, and whether it was sent from inside a step() (true) or by an application call / injection (false)
+pub struct Dgram { /// index into `calls` of the application call that sent it (None: sent from inside a step or injected)
+    pub call: Option<usize>, /// round in which the datagram was sent, and whether it was sent from inside a step() (true) or by an application call / injection (false)
     pub sent_round: usize, pub by_step: bool, pub round: usize, pub t_ms: u64, pub src: SocketAddr, pub dst: SocketAddr, pub bytes: Vec<u8>, pub frame: Option<Frame>, pub fate: DFate, pub injected: bool }
 
 #[derive(Clone, Debug)]
@@ -195,6 +196,7 @@ pub fn run_ew(cfg: &EwCfg, script: &[EwOp], env: &EwEnv, ch: &mut Chooser) -> Ew
         let dev = round >= env.dev_start && round < env.dev_start + env.dev_rounds;
         // datagrams sent from inside the previous round's steps
         let from_steps = vnet::take_wire();
+        let mut from_acts: Vec<(Option<usize>, (SocketAddr, SocketAddr, Vec<u8>))> = Vec::new();
         // --- application calls: scripted ops whose trigger holds, then (deviation) one op from the menu
         let mut acts: Vec<(Act, bool)> = Vec::new();
         for (i, op) in script.iter().enumerate() {
@@ -230,8 +232,9 @@ pub fn run_ew(cfg: &EwCfg, script: &[EwOp], env: &EwEnv, ch: &mut Chooser) -> Ew
                 }
                 Act::Forget(i) => { clients[*i] = None; }
                 Act::CSend(i, chn, mode, size) => {
+                    // the per-channel index counts every call, whether or not an object exists to take the packet
+                    let idx = { let e = counters.entry((0, *i, *chn)).or_insert(0); let v = *e; *e += 1; v };
                     if let Some(c) = clients[*i].as_mut() {
-                        let idx = { let e = counters.entry((0, *i, *chn)).or_insert(0); let v = *e; *e += 1; v };
                         c.send(ew_payload(0, *i, *chn, idx, *size), *chn as usize, *mode);
                     }
                 }
@@ -239,8 +242,8 @@ pub fn run_ew(cfg: &EwCfg, script: &[EwOp], env: &EwEnv, ch: &mut Chooser) -> Ew
                 Act::CDisconnectNow(i) => { if let Some(c) = clients[*i].as_mut() { c.disconnect_now(); } }
                 Act::CFlush(i) => { if let Some(c) = clients[*i].as_mut() { c.flush(); } }
                 Act::SSend(i, chn, mode, size) => {
+                    let idx = { let e = counters.entry((1, *i, *chn)).or_insert(0); let v = *e; *e += 1; v };
                     if let Some(rc) = srv.client(&caddr(*i)) {
-                        let idx = { let e = counters.entry((1, *i, *chn)).or_insert(0); let v = *e; *e += 1; v };
                         rc.borrow_mut().send(ew_payload(1, *i, *chn, idx, *size), *chn as usize, *mode);
                     }
                 }
@@ -250,26 +253,26 @@ pub fn run_ew(cfg: &EwCfg, script: &[EwOp], env: &EwEnv, ch: &mut Chooser) -> Ew
                 Act::SFlush => { srv.flush(); }
                 Act::Raw(r, bytes) => {
                     let dgi = tr.wire.len();
-                    tr.wire.push(Dgram { sent_round: round, by_step: false, round, t_ms: now, src: raddr(*r), dst: saddr(), bytes: bytes.clone(), frame: Frame::read(bytes), fate: DFate::Deliver, injected: true });
+                    tr.wire.push(Dgram { call: None, sent_round: round, by_step: false, round, t_ms: now, src: raddr(*r), dst: saddr(), bytes: bytes.clone(), frame: Frame::read(bytes), fate: DFate::Deliver, injected: true });
                     held.push(Held { due: round, seq, dg: dgi }); seq += 1;
                 }
                 Act::Spoof(i, bytes) => {
                     let dgi = tr.wire.len();
-                    tr.wire.push(Dgram { sent_round: round, by_step: false, round, t_ms: now, src: caddr(*i), dst: saddr(), bytes: bytes.clone(), frame: Frame::read(bytes), fate: DFate::Deliver, injected: true });
+                    tr.wire.push(Dgram { call: None, sent_round: round, by_step: false, round, t_ms: now, src: caddr(*i), dst: saddr(), bytes: bytes.clone(), frame: Frame::read(bytes), fate: DFate::Deliver, injected: true });
                     held.push(Held { due: round, seq, dg: dgi }); seq += 1;
                 }
                 Act::RawToClient(i, bytes) => {
                     let dgi = tr.wire.len();
-                    tr.wire.push(Dgram { sent_round: round, by_step: false, round, t_ms: now, src: saddr(), dst: caddr(*i), bytes: bytes.clone(), frame: Frame::read(bytes), fate: DFate::Deliver, injected: true });
+                    tr.wire.push(Dgram { call: None, sent_round: round, by_step: false, round, t_ms: now, src: saddr(), dst: caddr(*i), bytes: bytes.clone(), frame: Frame::read(bytes), fate: DFate::Deliver, injected: true });
                     held.push(Held { due: round, seq, dg: dgi }); seq += 1;
                 }
             }
+            for d in vnet::take_wire() { from_acts.push((Some(tr.calls.len()), d)); }
             tr.calls.push(ApiCall { round, t_ms: now, act, from_menu, gen });
         }
         // --- datagrams put on the wire since the previous round get their fate
-        let from_acts = vnet::take_wire();
         let n_steps = from_steps.len();
-        for (k, (src, dst, bytes)) in from_steps.into_iter().chain(from_acts.into_iter()).enumerate() {
+        for (k, (call, (src, dst, bytes))) in from_steps.into_iter().map(|d| (None, d)).chain(std::mem::take(&mut from_acts).into_iter()).enumerate() {
             let by_step = k < n_steps;
             let frame = Frame::read(&bytes);
             let to_server = dst == saddr();
@@ -282,7 +285,7 @@ pub fn run_ew(cfg: &EwCfg, script: &[EwOp], env: &EwEnv, ch: &mut Chooser) -> Ew
                 env.fates[k]
             } else { DFate::Deliver };
             let dgi = tr.wire.len();
-            tr.wire.push(Dgram { sent_round: if by_step { round.saturating_sub(1) } else { round }, by_step, round, t_ms: now, src, dst, bytes, frame, fate, injected: false });
+            tr.wire.push(Dgram { call, sent_round: if by_step { round.saturating_sub(1) } else { round }, by_step, round, t_ms: now, src, dst, bytes, frame, fate, injected: false });
             let mut push = |due: usize, seq: &mut usize| { held.push(Held { due, seq: *seq, dg: dgi }); *seq += 1; };
             match fate {
                 DFate::Deliver => push(round, &mut seq),
@@ -365,7 +368,7 @@ pub fn run_ew(cfg: &EwCfg, script: &[EwOp], env: &EwEnv, ch: &mut Chooser) -> Ew
     // datagrams sent by the last round's steps are recorded too (never delivered)
     for (src, dst, bytes) in vnet::take_wire() {
         let frame = Frame::read(&bytes);
-        tr.wire.push(Dgram { sent_round: tr.rounds.saturating_sub(1), by_step: true, round: tr.rounds, t_ms: now, src, dst, bytes, frame, fate: DFate::Drop, injected: false });
+        tr.wire.push(Dgram { call: None, sent_round: tr.rounds.saturating_sub(1), by_step: true, round: tr.rounds, t_ms: now, src, dst, bytes, frame, fate: DFate::Drop, injected: false });
     }
     drop(clients); drop(srv);
     tr
